@@ -162,6 +162,8 @@ pub trait GarnishNumber: Sized {
     fn bitwise_shift_right(self, rhs: Self) -> (r: Option<Self>) ensures r == self.bitwise_shift_right_spec(rhs);
 }
 
+//@@EXTRACT enum runtime/src/execute.rs SimpleRuntimeState
+//@@EXTRACT struct runtime/src/execute.rs SimpleRuntimeInfo pubfields=1 derive=Clone,Copy
 //@@EXTRACT struct traits/src/data.rs Extents
 //@@EXTRACT impls traits/src/data.rs Extents
 
@@ -312,6 +314,30 @@ pub open spec fn deferred_once<Sz, N, Sy, C, B>(o: St<Sz, N, Sy, C, B>, n: St<Sz
 /// C10: exactly two values are false - unit and `$!`
 pub open spec fn truthy(t: GarnishDataType) -> bool {
     t != GarnishDataType::False && t != GarnishDataType::Unit
+}
+
+/// C06: the fixed pop count of every instruction that pops n operands and pushes exactly one result
+/// without touching the input-value stack or the frame chain (written from the instruction set, not the code)
+pub open spec fn fixed_pops(i: Instruction) -> Option<nat> {
+    match i {
+        Instruction::Add | Instruction::Subtract | Instruction::Multiply | Instruction::Divide | Instruction::IntegerDivide
+        | Instruction::Power | Instruction::Remainder | Instruction::BitwiseAnd | Instruction::BitwiseOr | Instruction::BitwiseXor
+        | Instruction::BitwiseShiftLeft | Instruction::BitwiseShiftRight | Instruction::Xor | Instruction::TypeEqual
+        | Instruction::ApplyType | Instruction::Equal | Instruction::NotEqual | Instruction::LessThan | Instruction::LessThanOrEqual
+        | Instruction::GreaterThan | Instruction::GreaterThanOrEqual | Instruction::MakePair | Instruction::Access
+        | Instruction::MakeRange | Instruction::MakeStartExclusiveRange | Instruction::MakeEndExclusiveRange
+        | Instruction::MakeExclusiveRange | Instruction::Concat | Instruction::PartialApply => Some(2nat),
+        Instruction::Opposite | Instruction::AbsoluteValue | Instruction::BitwiseNot | Instruction::Not | Instruction::Tis
+        | Instruction::TypeOf | Instruction::AccessLeftInternal | Instruction::AccessRightInternal
+        | Instruction::AccessLengthInternal => Some(1nat),
+        Instruction::PutValue | Instruction::Put | Instruction::Resolve => Some(0nat),
+        _ => None,
+    }
+}
+
+/// op_effect, except that the instruction cursor may have moved
+pub open spec fn op_effect_mod_cursor<Sz, N, Sy, C, B>(o: St<Sz, N, Sy, C, B>, n: St<Sz, N, Sy, C, B>, pops: nat) -> bool {
+    op_effect(o, St { cursor: o.cursor, ..n }, pops)
 }
 
 /// C12: operand type pairs on which an order is defined (slices of char/byte lists are compared too)
